@@ -21,7 +21,8 @@ RULE = ('Hypothesis cases: root seed, chain of 1-6 delegate seeds, per-certifica
         'with a non-permitted flag. Both the single-certificate lock and the chain lock. Oracle: the acceptance condition '
         'of the statement evaluated by a reference over the resulting certificate DATA (RFC 8032 reference for every '
         'link), with the clock pinned; Certificate pack/unpack round trips for boundary field values. non-trivial = '
-        'chain length >= 2, or a boundary timestamp, or a corruption; distinct by case parameters.')
+        'chain length >= 2, or a boundary timestamp, or a corruption; distinct by case parameters.'
+        ' Accepted chains are replayed over other sigfield contents and at another time (the reference decides); certificates are edited after signing and packing, then packed again.')
 ASSUMPTIONS = ['clock pinned through functions.time; thresholds set through functions.flags["ts_threshold"] (restored)',
                'vt/ed25519_ref.py decides every link and the final signature',
                'may-delegate is the one-byte boolean the certificate builder writes (00 / ff); other byte values can only be hand-built and '
@@ -189,6 +190,20 @@ def check_cert_roundtrip(pk, begin, end, can, sig):
             fails.append(('certificate/unpack(pack(c))-differs', '%r vs %r' % (c2, c)))
         if c2.pack() != b:
             fails.append(('certificate/pack(unpack(b))-differs', ''))
+        # serialisation follows the field values the object has NOW (a certificate edited after it was signed or packed)
+        c3 = T.Certificate(pk, begin, end, can, sig)
+        c3.preimage()
+        c3.pack()
+        c3.end_ts = (end + 1) % 2 ** 31
+        c3.begin_ts = (begin + 7) % 2 ** 31
+        c3.can_further_delegate = not can
+        c3.delegate_pubkey = bytes(32 - len(pk[:31])) + pk[:31]
+        b3 = c3.pack()
+        want3 = c3.delegate_pubkey + c3.begin_ts.to_bytes(4, 'big') + c3.end_ts.to_bytes(4, 'big') + (b'\xff' if c3.can_further_delegate else b'\x00') + sig
+        if b3 != want3:
+            fails.append(('certificate/pack-after-edit-keeps-stale-fields', b3.hex()[:90]))
+        elif T.Certificate.unpack(b3) != c3:
+            fails.append(('certificate/unpack(pack(c))-differs-after-edit', ''))
         if len(b) != 105 or b[:32] != pk or int.from_bytes(b[32:36], 'big') != begin or int.from_bytes(b[36:40], 'big') != end \
                 or b[40] != (255 if can else 0) or b[41:] != sig:
             fails.append(('certificate/pack-layout', b.hex()[:90]))
